@@ -16,6 +16,12 @@ CHECKS = {
                 note='trusted: reference model and descriptor reader; raising steps are C01\'s'),
     'C12': dict(engine='sim', design='5/C12', technique='deterministic simulation: seeded op schedules; every reward/termination component, composite and the step\'s (reward, flag) compared with the documented formula on (state, action, returned next state), plus direct component calls on arbitrary triples asked twice',
                 note='trusted: documented formulas in gvsim/model.py; floats compared with tolerance 1e-9; agent-on-Wall states excluded from the bump oracle; memory rewards judged on single-beacon-colour states'),
+    'C02': dict(engine='sim', design='5/C02', technique='deterministic simulation with fault injection: seeded interleaving of several live environments (twins included) with an adversary that reseeds/draws/clears every process-global source; each client compared with its solo re-execution (debug flipped), global generators compared around every client op (tripwire), and restart in fresh interpreters under other PYTHONHASHSEED values',
+                note='trusted: history digests via the descriptor reader; YAML construction draws from the library generator before a seed exists and is not judged; interleaving granularity is one public API call'),
+    'C04': dict(engine='sim', design='5/C04', technique='deterministic simulation with fault injection: refinement of the stateful environment against a twin used only through the functional interface (M-env), generator lock-step after every op, arbitrary read patterns, resets mid-episode, rejected actions and global-state noise injected between step and read',
+                note='trusted: the twin is the same component code threaded functionally; representation oracle objects are built separately from the ones inside OuterEnv'),
+    'C11': dict(engine='stochastic', design='5/C11', technique='deterministic simulation owning every random outcome: ScriptedRng (uniform / extreme / forced outcomes) and real seeded generators; outcome forcing re-executes a step for every resolution of its random choices; relational post-conditions with a search over obstacle turn orders',
+                note='trusted: ScriptedRng (differentially tested against numpy Generator at setup), the turn-order search (bounded to 6 obstacles, larger = undecided)'),
     'C08': dict(engine='sim', design='5/C08', technique='deterministic simulation: seeded op schedules over free-form worlds and shipped configurations, per-component and per-step refinement of the agent pose against a reference model, history invariant',
                 note='trusted: the reference model (gvsim/model.py) and the descriptor reader (gvsim/lib.py); teleport destinations are judged by C11, raising steps by C01'),
     'C09': dict(engine='sim', design='5/C09', technique='deterministic simulation: seeded op schedules, per-component object-inventory conservation and pick-and-drop case analysis against a reference model',
@@ -29,6 +35,7 @@ NOT_APPLICABLE = [
 ]
 
 ENGINES = {
+    'stochastic': ('gvsim/props/c11.py', 'scripted-generator runner: real GridWorld / transition functions with a ScriptedRng or a real seeded Generator, outcome forcing'),
     'sim': ('gvsim/sim.py', 'in-process simulator: clients = real environment stacks, adversary on process-global state, seeded scheduler at operation granularity, monitors against reference models'),
 }
 
